@@ -123,8 +123,8 @@ def observe(c):
   obs = []
   for v in variants(c['price'], R, n):
     p = tg.py_price(v)
-    cp = fr(d.cost(s, p))
-    gp = fr(np.array(d.deriv(s, p)).reshape(R, n))
+    cp = fr(core.maybe_stale(c, d.cost, s, p))
+    gp = fr(np.array(core.maybe_stale(c, d.deriv, s, p)).reshape(R, n))
     hp = None
     if c['hess']:
       Hp = _hess(d, s, p)
